@@ -9,13 +9,18 @@
    Premises: the sub-lexers (pygments JsonLexer / DiffLexer) are an oracle assumed lossless; the engine model equals
    pygments' (validated by the `lex` correspondence family, not proved).
 
-   NOT proved (second half of C20: "for UTF-8 writer outputs without "#." no error token is produced and the header
-   tokens are exactly the section headers"): left to the sampled check of family `lex` (writer-output cases, oracle
-   signature 'headers').  A proof would need completeness (not only soundness) of the matcher on writer-shaped
-   texts and a model of JsonLexer / DiffLexer for the "no error token" part. *)
+   Second half of C20 ("for UTF-8 writer outputs without "#." no error token is produced and the header tokens are
+   exactly the section headers"): C20_headers_partial, PARTIAL.  It is proved for the engine model over an abstract
+   grammar of DiffX documents (LexerHeaderFacts.wf_doc: sections = one of the nine headers the writer emits, an
+   optional option text without LF, and for content sections a non-empty body without "#."; "#diffx:" only first),
+   and for the tokens of the DiffX-level rules only (the sub-lexer tokens are hidden / assumed to be neither
+   Name.Tag nor Error: JsonLexer itself uses Name.Tag for object keys).  Missing for the full statement: (a) that
+   every UTF-8 writer output has this shape is not derived from Writer.v here; (b) "no error token" inside JSON and
+   diff bodies is a statement about pygments' JsonLexer / DiffLexer, which are not modelled.  Both are covered only
+   by the sampled check of family `lex` (writer-output cases, oracle signature 'headers'). *)
 From Coq Require Import List Arith NArith Bool Strings.Byte.
 From Coq Require Strings.String.
-From DX Require Import Bytes Lexer LexerFacts.
+From DX Require Import Bytes Lexer LexerFacts LexerHeaderFacts.
 From DXGen Require GenLexer.
 Import ListNotations.
 Import String.StringSyntax.
@@ -104,3 +109,41 @@ abc
           (100%N, B "Token.Literal.Number.Integer", ascii_text "3"); (101%N, B "Token.Text", [10%N]);
           (102%N, B "Token.Other", ascii_text "abc" ++ [10%N]) ].
 Proof. vm_compute. reflexivity. Qed.
+
+(* ---- second half (partial, see the head comment) ---- *)
+
+(* for every sub-lexer oracle whose tokens are neither Name.Tag nor Error *)
+Theorem C20_headers_quiet_oracle :
+  forall oracle,
+    oracle_lossless oracle -> (forall name txt, oracle name txt <> None) -> oracle_quiet oracle ->
+    forall d, wf_doc d ->
+    exists toks,
+      lex_default oracle GenLexer.rules (render_doc d) = LOk toks /\
+      tagvals toks = map s_hdr d /\ errors toks = [].
+Proof. exact headers_thm. Qed.
+Print Assumptions C20_headers_quiet_oracle.
+
+(* for every sub-lexer oracle, looking at the tokens of the DiffX-level rules only ([hide] relabels the oracle's tokens) *)
+Theorem C20_headers_partial :
+  forall oracle,
+    oracle_lossless oracle -> (forall name txt, oracle name txt <> None) ->
+    forall d, wf_doc d ->
+    exists toks,
+      lex_default (hide oracle) GenLexer.rules (render_doc d) = LOk toks /\
+      tagvals toks = map s_hdr d /\ errors toks = [].
+Proof. intros; apply headers_thm; auto using hide_lossless, hide_total, hide_quiet. Qed.
+Print Assumptions C20_headers_partial.
+
+(* a well-formed document: the file of C20_engine_example with "abc#" as last diff line *)
+Example C20_headers_example :
+  wf_doc ex_doc /\
+  render_doc ex_doc = ascii_text "#diffx: version=1.0
+#.change:
+#..file:
+#...meta: format=json, length=3
+{}
+#...diff: length=12
+delta 3
+abc#
+".
+Proof. split; [exact ex_doc_wf | vm_compute; reflexivity]. Qed.
